@@ -8,12 +8,13 @@ from hypothesis import strategies as st
 
 from vlib import blocks, gen, kernels
 from vlib import build as vbuild
-from vlib.oracles import EPS
+from vlib.oracles import EPS, held_prediction
 from vlib.runner import Sub, Violation
 
 PROPERTY = "C02"
-RULE = ("jittered-lattice clouds (3..30 points, scales 1e-2..1e4, offsets up to 10x extent), data 1e-6..1e6, weights none or strictly positive and "
-        "non-uniform (different per component for vector data), damping None or log-uniform [1e-8, 1e2], forces at the data or at a separate smaller "
+RULE = ("jittered-lattice clouds (3..30 points, scales 1e-2..1e4, offsets up to 10x extent; a third with exact structure: regular grids, survey lines, "
+        "sorted storage; Trend also with stations occupied several times), data 1e-6..1e6, weights none, non-uniform (different per component for "
+        "vector data), uniform other than 1, or with a quarter of them exactly zero, damping None or log-uniform [1e-8, 1e2], forces at the data or at a separate smaller "
         "set, Trend degrees 0..4, Poisson in [-1, 1]; non-trivial = the problem is over-determined or damped, weights are non-uniform (when given) "
         "and the case was not skipped by the conditioning rule; distinct = SHA-1 of the case")
 ASSUMPTIONS = [
@@ -187,6 +188,7 @@ def check_trend(case, ctx):
     jac = kernels.trend_jacobian(e, n, deg)
     jq = kernels.trend_jacobian(qe, qn, deg)
     nt = judge(ctx, "Trend(%d)" % deg, jac, jq, data, weights, None, tr.coef_, [tr.predict((qe, qn))])
+    held_prediction(tr, qe, qn, "Trend(%d)" % deg)
     ctx.label("deg%d" % deg, "reoccupied_stations" if case.get("reoccupied") else "distinct_stations", "structure_%s" % (case["cloud"].get("structure") or "none"))
     ctx.nt(nt)
 
@@ -220,6 +222,7 @@ def check_spline(case, ctx):
     rho_f = np.hypot(e.ravel()[:, None] - fe[None, :], n.ravel()[:, None] - fn[None, :])
     kabs_fit = 32 * EPS * (rho_f + rho_f**2 * (1 + np.abs(np.log(np.maximum(rho_f, 1e-300)))))
     nt = judge(ctx, "Spline(damping=%r)" % case["damping"], jac, jq, data, weights, case["damping"], sp.force_, [sp.predict((qe, qn))], kernel_abs=kabs, kernel_abs_fit=kabs_fit)
+    held_prediction(sp, qe, qn, "Spline(damping=%r)" % case["damping"])
     ctx.label("forces_at_data" if case["force_fracs"] is None else "forces_separate")
     ctx.nt(nt)
 
@@ -297,6 +300,7 @@ def check_vector(case, ctx):
     kabs1 = 32 * EPS * (2 + np.abs((3 - case["poisson"]) * np.log(rho)))
     kabs = np.block([[kabs1, kabs1], [kabs1, kabs1]])
     nt = judge(ctx, "VectorSpline2D(%r)" % kw, jac, jq, data, weights, case["damping"], vs.force_, list(pred), kernel_abs=kabs)
+    held_prediction(vs, qe, qn, "VectorSpline2D(%r)" % kw)
     if weights is not None:
         nt = nt and not np.allclose(weights[0], weights[1])
     ctx.label("forces_at_data" if case["force_fracs"] is None else "forces_separate")
